@@ -51,6 +51,8 @@ struct Engine {
     rle: Vec<(u32, u32)>,
     max_steps: u64,
     dead: Option<String>,
+    alloc_mean: u64,
+    alloc_yields: u64,
 }
 
 static ENGINE: Mutex<Option<Engine>> = Mutex::new(None);
@@ -59,6 +61,95 @@ static CV: Condvar = Condvar::new();
 thread_local! {
     /// simulated-thread id of this OS thread (0 = coordinator / not simulated)
     pub static TID: Cell<usize> = const { Cell::new(0) };
+    /// allocation-point preemption: open only while library code of a call runs on this thread
+    static GATE: Cell<bool> = const { Cell::new(false) };
+    static COUNTDOWN: Cell<u64> = const { Cell::new(u64::MAX) };
+}
+
+/// Restores the allocation gate of this thread when dropped.
+pub struct GateGuard(bool);
+
+impl Drop for GateGuard {
+    fn drop(&mut self) {
+        let _ = GATE.try_with(|g| g.set(self.0));
+    }
+}
+
+/// Harness code entered from library code (hook callback, logger, panic hook) closes the
+/// gate: it takes harness locks, and a scheduling point under one would block the others.
+pub fn gate_close() -> GateGuard {
+    GateGuard(GATE.try_with(|g| g.replace(false)).unwrap_or(false))
+}
+
+/// Open the gate for the library code of one call (threads engine only, and only when the
+/// plan asks for allocation-point preemption).
+pub fn gate_open_for_call() -> GateGuard {
+    let mean = {
+        let mut g = lock();
+        match g.as_mut() {
+            Some(e) if e.active && e.alloc_mean > 0 && tid() != 0 => {
+                let m = e.alloc_mean;
+                let next = 1 + e.rng.below(2 * m as usize) as u64;
+                COUNTDOWN.with(|c| c.set(next));
+                m
+            }
+            _ => 0,
+        }
+    };
+    GateGuard(GATE.with(|g| g.replace(mean > 0)))
+}
+
+/// Called by the global allocator before every allocation. With the gate open, every
+/// n-th allocation (n drawn from the plan's PRNG) is a scheduling point: the running thread
+/// can be preempted almost anywhere in library code, not only at lock events and log sites.
+#[inline]
+pub fn alloc_point() {
+    let fire = GATE
+        .try_with(|g| {
+            if !g.get() {
+                return false;
+            }
+            COUNTDOWN
+                .try_with(|c| {
+                    let v = c.get();
+                    if v > 1 {
+                        c.set(v - 1);
+                        false
+                    } else {
+                        true
+                    }
+                })
+                .unwrap_or(false)
+        })
+        .unwrap_or(false);
+    if fire {
+        let _closed = gate_close();
+        alloc_sched_point();
+    }
+}
+
+fn alloc_sched_point() {
+    let me = tid();
+    if me == 0 {
+        return;
+    }
+    {
+        let mut g = lock();
+        let Some(e) = g.as_mut() else { return };
+        if !e.active {
+            return;
+        }
+        let m = e.alloc_mean.max(1);
+        let next = 1 + e.rng.below(2 * m as usize) as u64;
+        COUNTDOWN.with(|c| c.set(next));
+        e.alloc_yields += 1;
+    }
+    {
+        let mut st = state();
+        st.counters.alloc_yields += 1;
+        st.ev(&format!("t{me} alloc-yield"));
+    }
+    sched_point();
 }
 
 pub fn set_tid(t: usize) {
@@ -87,7 +178,7 @@ pub struct Stats {
     pub dead: Option<String>,
 }
 
-pub fn start(sched: &Sched, nthreads: usize) {
+pub fn start(sched: &Sched, nthreads: usize, alloc_mean: u64) {
     let explicit = sched.explicit.clone().unwrap_or_default();
     let explicit_mode = !explicit.is_empty() || sched.switch_ppm == 0;
     *lock() = Some(Engine {
@@ -106,6 +197,8 @@ pub fn start(sched: &Sched, nthreads: usize) {
         rle: Vec::new(),
         max_steps: 3_000_000,
         dead: None,
+        alloc_mean,
+        alloc_yields: 0,
     });
     // the coordinator is not a simulated caller
     if let Some(e) = lock().as_mut() {
